@@ -1,11 +1,14 @@
 (* C06  No request can crash the server.
    What proof can carry here: the crashes of the pinned tree were nil dereferences of a traveler's current
    element or mark, unchecked type assertions, and channel misuse. For the modelled step alphabet (C01) the
-   theorem C06_no_nil_current shows that, for EVERY graph and EVERY program that the type checker accepts,
-   no step is ever handed a traveler that lacks the current element it dereferences, and every single-mark
+   theorem C06_no_nil_current shows that, for EVERY graph and EVERY program that the type checker accepts and
+   that contains no null-producing move, no step is ever handed a traveler that lacks the current element it dereferences, and every single-mark
    select of an element-typed mark finds its mark -- so the per-step functions are total on everything a
    well-typed program can feed them; and C06_outcome shows the model's verdict is always "rejected" or "rows".
-   Everything outside that alphabet (null-producing steps, set/increment, aggregations, mark/jump, the edit
+   After a null-producing move (outNull/inNull/outENull/inENull, in the model since C01_null_moves) travelers
+   without a current element are legitimate: the model gives every step a meaning on them (C06_outcome: still
+   "rejected" or "rows", never stuck) and the correspondence check compares that meaning with the processors.
+   Everything outside that alphabet (set/increment, aggregations, mark/jump, the edit
    handlers and BulkAdd stream switching) is NOT modelled: it is exercised by the hostile-request
    correspondence in worker sub-processes, where a crash or a hang of the real handlers is a violation. *)
 From Coq Require Import List String Bool.
@@ -16,23 +19,23 @@ Theorem C06_outcome : forall g p, run g p = Rejected \/ exists rows, run g p = R
 Proof. intros g p. unfold run. destruct (type_of p); [right|left; reflexivity]. destruct p; eauto. Qed.
 Print Assumptions C06_outcome.
 
-Theorem C06_no_nil_current : forall g p ty out, run_from g (DNone, []) p [t0] = Some (ty, out) ->
+Theorem C06_no_nil_current : forall g p ty out, null_free p = true -> run_from g (DNone, []) p [t0] = Some (ty, out) ->
   Forall (fun t => (is_elem (fst ty) = true -> t_cur t <> None) /\
                    (revivable (fst ty) = true -> forall m d, get_assoc m (snd ty) = Some d -> is_elem d = true ->
                                                   get_assoc m (t_marks t) <> None)) out.
 Proof.
-  intros g p ty out H. apply (run_sound g p (DNone, []) [t0] ty out H). constructor; [apply wk_t0|constructor].
+  intros g p ty out Hnf H. apply (run_sound g p (DNone, []) [t0] ty out Hnf H). constructor; [apply wk_t0|constructor].
 Qed.
 Print Assumptions C06_no_nil_current.
 
 (* ... and at every intermediate point of the program, not only at its end *)
-Theorem C06_no_nil_current_prefix : forall g p1 p2 ty out ty1 mid,
+Theorem C06_no_nil_current_prefix : forall g p1 p2 ty out ty1 mid, null_free p1 = true ->
   run_from g (DNone, []) (p1 ++ p2) [t0] = Some (ty, out) ->
   run_from g (DNone, []) p1 [t0] = Some (ty1, mid) ->
   Forall (fun t => is_elem (fst ty1) = true -> t_cur t <> None) mid.
 Proof.
-  intros g p1 p2 ty out ty1 mid _ H1.
-  pose proof (run_sound g p1 (DNone, []) [t0] ty1 mid H1 (Forall_cons _ wk_t0 (Forall_nil _))) as H.
+  intros g p1 p2 ty out ty1 mid Hnf _ H1.
+  pose proof (run_sound g p1 (DNone, []) [t0] ty1 mid Hnf H1 (Forall_cons _ wk_t0 (Forall_nil _))) as H.
   rewrite Forall_forall in *. intros t Ht. destruct (H t Ht) as [Hc _]. exact Hc.
 Qed.
 Print Assumptions C06_no_nil_current_prefix.
